@@ -33,8 +33,9 @@ TAdd == /\ IsEvent("Add")
         /\ ProjOK(Rec[l].proj)
 
 TApply == /\ IsEvent("Apply")
-          /\ Rec[l].res = "ok"
+          /\ Rec[l].res \in {"ok", "err"}
           /\ ApplyNext
+          /\ (Rec[l].res = "err") = (finalised' = "apperr")
           /\ Rec[l].complete = Complete'
           /\ ProjOK(Rec[l].proj)
 
@@ -50,7 +51,13 @@ TRestart == /\ IsEvent("Restart")
             /\ Reset
             /\ ProjOK(Rec[l].proj)
 
-TNext == (TReset \/ TAdd \/ TApply \/ TFinalize \/ TRestart) /\ l' = l + 1
+\* Chain::txhashset_write: accepted (and then the state is the archive header's) exactly when the model accepts
+TArchive == /\ IsEvent("ArchiveWrite")
+            /\ ArchiveWrite(Rec[l].kind)
+            /\ (Rec[l].res = "ok") = (finalised' = "ok")
+            /\ Rec[l].at_archive = (finalised' = "ok")
+
+TNext == (TArchive \/ TReset \/ TAdd \/ TApply \/ TFinalize \/ TRestart) /\ l' = l + 1
 
 TraceInit == TInit
 
